@@ -7,7 +7,7 @@ use serde::{Deserialize, Serialize};
 use sim_core::Rng;
 
 use crate::exec::World;
-use crate::reference::{IMMUTABLE_DIR, NameClass, classify_name};
+use crate::reference::{NameClass, classify_name};
 
 #[derive(Clone, Copy, Debug, PartialEq, Eq, Serialize, Deserialize)]
 pub enum CacheKind {
@@ -130,8 +130,12 @@ pub enum Step {
 
 #[derive(Clone, Debug, Serialize, Deserialize)]
 pub struct Config {
-    /// top-level directories created when the node is set up, in this order
+    /// directories created when the node is set up, in this order
     pub top_dirs: Vec<String>,
+    /// where the node writes its trios, relative to the directory handed to the digester
+    /// (`immutable`, or e.g. `db/immutable` when that directory is a parent of the real db)
+    #[serde(default = "default_trio_dir")]
+    pub trio_dir: String,
     /// --- generation-only knobs (recorded for the sample; ignored by replay) ---
     #[serde(default)]
     pub start: u64,
@@ -153,19 +157,23 @@ pub struct Config {
     pub permanent: bool,
 }
 
+fn default_trio_dir() -> String {
+    "immutable".to_string()
+}
+
 pub const EXT: [&str; 3] = ["chunk", "primary", "secondary"];
 
-pub fn trio_paths(number: u64) -> [String; 3] {
+pub fn trio_paths(trio_dir: &str, number: u64) -> [String; 3] {
     [
-        format!("{IMMUTABLE_DIR}/{number:05}.chunk"),
-        format!("{IMMUTABLE_DIR}/{number:05}.primary"),
-        format!("{IMMUTABLE_DIR}/{number:05}.secondary"),
+        format!("{trio_dir}/{number:05}.chunk"),
+        format!("{trio_dir}/{number:05}.primary"),
+        format!("{trio_dir}/{number:05}.secondary"),
     ]
 }
 
-/// Whether `path` is a canonically named trio file (`immutable/NNNNN.<ext>`, zero padded to 5).
-pub fn is_canonical_trio_file(path: &str) -> bool {
-    let Some(name) = path.strip_prefix("immutable/") else { return false };
+/// Whether `path` is a canonically named trio file (`<trio_dir>/NNNNN.<ext>`, zero padded to 5).
+pub fn is_canonical_trio_file(trio_dir: &str, path: &str) -> bool {
+    let Some(name) = path.strip_prefix(trio_dir).and_then(|r| r.strip_prefix('/')) else { return false };
     match classify_name(name) {
         NameClass::Immutable(n) => {
             let (_, ext) = crate::reference::split_name(name);
@@ -238,7 +246,8 @@ pub fn gen_config(rng: &mut Rng) -> Config {
             extra_kinds.push(k);
         }
     }
-    if rng.chance(0.03) {
+    let nested = rng.chance(0.08);
+    if nested {
         extra_kinds.push(X_NESTED_IMMUTABLE);
     }
     if rng.chance(0.06) {
@@ -256,17 +265,22 @@ pub fn gen_config(rng: &mut Rng) -> Config {
     if !damage_kinds.is_empty() && !caches.contains(&CacheKind::Json) {
         caches.push(CacheKind::Json);
     }
-    let mut top: Vec<String> = vec!["immutable".into(), "ledger".into(), "volatile".into()];
+    // where the trios live: normally `<db>/immutable`; in histories that play with several
+    // directories named `immutable` the digester is sometimes handed a parent of the real db
+    let prefix = if nested && rng.chance(0.5) { *rng.pick(&["db/", "node/db/", "m/"]) } else { "" };
+    let trio_dir = format!("{prefix}immutable");
+    let mut top: Vec<String> = vec![trio_dir.clone(), format!("{prefix}ledger"), format!("{prefix}volatile")];
     rng.shuffle(&mut top);
-    if rng.chance(0.25) {
+    if rng.chance(if nested { 0.5 } else { 0.25 }) {
         // the immutable directory appears only with the first trio
-        top.retain(|d| d != "immutable");
+        top.retain(|d| *d != trio_dir);
     }
     if rng.chance(0.15) {
-        top.retain(|d| d == "immutable");
+        top.retain(|d| *d == trio_dir);
     }
     Config {
         top_dirs: top,
+        trio_dir,
         start,
         steps,
         initial_trios,
@@ -335,6 +349,7 @@ fn gen_extra_path(w: &World, cfg: &Config, rng: &mut Rng) -> (String, bool) {
     // a number around the existing trios (sometimes one that does not exist yet)
     let num = if rng.chance(0.8) && hi >= cfg.start { rng.range(cfg.start, hi + 1) } else { hi + rng.range(1, 4) };
     let ext = *rng.pick(&EXT);
+    let imm = w.trio_dir.as_str();
     match kind {
         X_OTHER_EXT => {
             let name = match rng.below(12) {
@@ -351,13 +366,13 @@ fn gen_extra_path(w: &World, cfg: &Config, rng: &mut Rng) -> (String, bool) {
                 10 => "README".to_string(),
                 _ => format!("{num:05}{ext}"),
             };
-            (format!("immutable/{name}"), false)
+            (format!("{imm}/{name}"), false)
         }
         X_SUBDIR => match rng.below(4) {
-            0 => (format!("immutable/sub/{num:05}.{ext}"), false),
-            1 => (format!("immutable/{num:07}.{ext}"), true),
-            2 => (format!("immutable/{num:07}.{ext}/{num:05}.{ext}"), false),
-            _ => (format!("immutable/old/immutable/{num:05}.{ext}"), false),
+            0 => (format!("{imm}/sub/{num:05}.{ext}"), false),
+            1 => (format!("{imm}/{num:07}.{ext}"), true),
+            2 => (format!("{imm}/{num:07}.{ext}/{num:05}.{ext}"), false),
+            _ => (format!("{imm}/old/immutable/{num:05}.{ext}"), false),
         },
         X_LOOKALIKE_NUMERIC => {
             let name = match rng.below(4) {
@@ -366,7 +381,7 @@ fn gen_extra_path(w: &World, cfg: &Config, rng: &mut Rng) -> (String, bool) {
                 2 => format!("+{num}.{ext}"),
                 _ => format!("{num:08}.{ext}"),
             };
-            (format!("immutable/{name}"), false)
+            (format!("{imm}/{name}"), false)
         }
         X_SIX_DIGIT => {
             let n = match rng.below(3) {
@@ -374,7 +389,7 @@ fn gen_extra_path(w: &World, cfg: &Config, rng: &mut Rng) -> (String, bool) {
                 1 => 999_999,
                 _ => rng.range(100_000, 5_000_000),
             };
-            (format!("immutable/{n}.{ext}"), false)
+            (format!("{imm}/{n}.{ext}"), false)
         }
         X_ELSEWHERE => {
             let p = match rng.below(9) {
@@ -391,11 +406,17 @@ fn gen_extra_path(w: &World, cfg: &Config, rng: &mut Rng) -> (String, bool) {
             (p, false)
         }
         X_NESTED_IMMUTABLE => {
-            let parent = *rng.pick(&["ledger", "volatile", "aaa", "zzz", "ledger/snap"]);
+            // other directories named `immutable`: deeper than, as deep as (both sides of the
+            // path order) or shallower than the node's own one
+            let parent = *rng.pick(&[
+                "ledger", "volatile", "aaa", "zzz", "ledger/snap", "db", "node", "node/db", "a", "z", "a/b/c", "",
+            ]);
+            let dir = if parent.is_empty() { "immutable".to_string() } else { format!("{parent}/immutable") };
             if rng.chance(0.2) {
-                (format!("{parent}/immutable"), true)
+                (dir, true)
             } else {
-                (format!("{parent}/immutable/{num:05}.{ext}"), false)
+                // often the very numbers the node itself has, so that a wrong pick yields a root
+                (format!("{dir}/{num:05}.{ext}"), false)
             }
         }
         _ => {
@@ -409,7 +430,7 @@ fn gen_extra_path(w: &World, cfg: &Config, rng: &mut Rng) -> (String, bool) {
                 6 => format!("..{ext}"),
                 _ => format!("{num:05}_.{ext}"),
             };
-            (format!("immutable/{name}"), false)
+            (format!("{imm}/{name}"), false)
         }
     }
 }
@@ -476,6 +497,15 @@ fn gen_probe(w: &World, cfg: &Config, rng: &mut Rng) -> Option<Step> {
 /// Next step of a generated history, drawn from the current state of the world (model only).
 pub fn gen_step(w: &World, cfg: &Config, index: u32, rng: &mut Rng) -> Step {
     let next_number = highest_trio(w).map(|h| h + 1).unwrap_or(cfg.start);
+    if index == 0 && cfg.extra_kinds.contains(&X_NESTED_IMMUTABLE) && rng.chance(0.5) {
+        // another directory named `immutable` that exists before the node's own one
+        let mut only = cfg.clone();
+        only.extra_kinds = vec![X_NESTED_IMMUTABLE];
+        let (path, is_dir) = gen_extra_path(w, &only, rng);
+        if w.disk.can_create(&path) {
+            return Step::Extra { path, is_dir, size: gen_size(cfg.size_profile, rng), seed: rng.next_u64() };
+        }
+    }
     if index < cfg.initial_trios {
         return gen_append(next_number, cfg, rng);
     }
@@ -488,7 +518,7 @@ pub fn gen_step(w: &World, cfg: &Config, index: u32, rng: &mut Rng) -> Step {
         let step = match rng.weighted(&cfg.weights) {
             K_APPEND => Some(gen_append(next_number, cfg, rng)),
             K_GROW => highest_trio(w).map(|hi| {
-                let paths = trio_paths(hi);
+                let paths = trio_paths(&w.trio_dir, hi);
                 Step::Grow {
                     path: paths[rng.index(3)].clone(),
                     add: rng.range(1, 5000) as u32,
@@ -505,7 +535,7 @@ pub fn gen_step(w: &World, cfg: &Config, index: u32, rng: &mut Rng) -> Step {
             }
             K_REMOVE => {
                 let extras: Vec<&String> =
-                    w.disk.files.keys().filter(|p| !is_canonical_trio_file(p)).collect();
+                    w.disk.files.keys().filter(|p| !is_canonical_trio_file(&w.trio_dir, p)).collect();
                 if extras.is_empty() { None } else { Some(Step::Remove { path: (*rng.pick(&extras)).clone() }) }
             }
             K_COMPUTE => {
